@@ -179,6 +179,55 @@ pub(super) fn extract_param_rename_attr(
     Ok(rename_result.unwrap_or(None))
 }
 
+/// Extract (and remove) the `#[zlink(rename = "...")]` attribute of every parameter of `method`, in
+/// declaration order (`self` and non-identifier patterns are skipped, like the argument parsers
+/// do). This is done once, before any call form is generated, so that all of them see the names.
+pub(super) fn extract_param_renames(method: &mut syn::TraitItemFn) -> Vec<Option<String>> {
+    method
+        .sig
+        .inputs
+        .iter_mut()
+        .skip(1)
+        .filter_map(|arg| {
+            let syn::FnArg::Typed(pat_type) = arg else {
+                return None;
+            };
+            if !matches!(&*pat_type.pat, syn::Pat::Ident(_)) {
+                return None;
+            }
+            Some(
+                extract_param_rename_attr(&mut pat_type.attrs)
+                    .ok()
+                    .flatten(),
+            )
+        })
+        .collect()
+}
+
+/// The serde attributes of a parameter's field in the generated parameters struct: its wire name
+/// if renamed, and omission when it is `None`.
+pub(super) fn param_serde_attrs(info: &super::types::ArgInfo<'_>) -> proc_macro2::TokenStream {
+    use quote::quote;
+
+    if let Some(ref renamed) = info.serialized_name {
+        if info.is_optional {
+            quote! {
+                #[serde(rename = #renamed, skip_serializing_if = "Option::is_none")]
+            }
+        } else {
+            quote! {
+                #[serde(rename = #renamed)]
+            }
+        }
+    } else if info.is_optional {
+        quote! {
+            #[serde(skip_serializing_if = "Option::is_none")]
+        }
+    } else {
+        quote! {}
+    }
+}
+
 /// Build a combined where clause from existing constraints, new constraint, and generic bounds.
 pub(super) fn build_combined_where_clause(
     existing: Option<syn::WhereClause>,
